@@ -87,6 +87,7 @@ def validate(v, trace_path, timeout=900):
     rows = vlib.read_ndjson(trace_path)
     tr = vlib.tlc("TraceMalformed", "TraceMalformed.cfg", env={"VERIF_TRACE": trace_path}, cont=True, timeout=timeout,
                   workers=8, heap="4g")
+    vlib.log("TraceMalformed: %d lines, %.1fs" % (len(rows), tr.wall))
     if tr.error:
         raise vlib.MachineryError("TraceMalformed failed: %s\n%s" % (tr.kind, tr.out[-3000:]))
     if tr.distinct != len(rows) + 1:
@@ -114,12 +115,39 @@ def validate(v, trace_path, timeout=900):
     return rows, tr, bad
 
 
+def spread_heavy_lines(trace_path, chunk=16):
+    """TraceMalformed walks the lines in chunks of 16, one chunk per worker step chain: put the few long
+    observations (hundreds of events) at the start of different chunks so that they are validated in parallel.
+    Pure reordering of the recorded lines."""
+    rows = vlib.read_ndjson(trace_path)
+    heavy = [r_ for r_ in rows if len(r_.get("evs") or []) > 100]
+    if not heavy:
+        return
+    light = [r_ for r_ in rows if len(r_.get("evs") or []) <= 100]
+    # not at a chunk START: the successors of the root state (= all chunk starts) are generated and checked by
+    # one worker; the second line of a chunk is checked by whichever worker picks that chunk up
+    out = []
+    while light or heavy:
+        if heavy and light:
+            out.append(light.pop(0))
+            out.append(heavy.pop())
+            out.extend(light[:chunk - 2])
+            light = light[chunk - 2:]
+        elif heavy:
+            out.append(heavy.pop())
+        else:
+            out.extend(light)
+            light = []
+    vlib.write_ndjson(trace_path, out)
+
+
 def run(tier, v):
     thorough = tier == "thorough"
     # 1. design level: exhaustive over the case space; terminal states print the case list
     cfg = "Malformed_exh_big.cfg" if thorough else "Malformed_exh.cfg"
     r = vlib.tlc("MalformedMC", cfg, deadlock=False, timeout=900, workers=4, heap="4g")
     vlib.tlc_must_pass(r, cfg)
+    vlib.log("design level %s: %d states, %.1fs" % (cfg, r.distinct, r.wall))
     states, trans = r.distinct, r.generated
     terminals = parse_prints(r)
     allowed = {}
@@ -128,10 +156,11 @@ def run(tier, v):
     cases = [json.loads(k) for k in sorted(allowed)]
     if len(cases) < 300:
         raise vlib.MachineryError("only %d cases exported by TLC" % len(cases))
+    # negative controls run beside the driver (they only need the spec); joined before the verdict
     negs = ["Malformed_neg_swallow.cfg", "Malformed_neg_loseprefix.cfg", "Malformed_neg_spin.cfg"]
-    for neg in negs:
-        rn = vlib.tlc("MalformedMC", neg, deadlock=False, timeout=300, workers=2, heap="2g")
-        vlib.tlc_must_fail(rn, neg)
+    import concurrent.futures
+    pool = concurrent.futures.ThreadPoolExecutor(max_workers=3)
+    neg_jobs = [(neg, pool.submit(vlib.tlc, "MalformedMC", neg, deadlock=False, timeout=300, workers=2, heap="2g")) for neg in negs]
     # 2. M2 + M1: render and run every case through the real code
     b = vlib.harness_build()
     d = vlib.scratch()
@@ -143,7 +172,11 @@ def run(tier, v):
                         timeout=3000 if thorough else 900)
     m = re.search(r"(\d+) jobs in (\d+) child processes", p.stderr)
     children = int(m.group(2)) if m else 0
+    spread_heavy_lines(trace)
     rows, tr, bad = validate(v, trace, timeout=3000 if thorough else 900)
+    for neg, job in neg_jobs:
+        vlib.tlc_must_fail(job.result(), neg)
+    pool.shutdown()
     case_rows = [r_ for r_ in rows if r_["k"] == "case"]
     fuzz_rows = [r_ for r_ in rows if r_["k"] == "fuzz"]
     if len(case_rows) != len(cases):
